@@ -510,6 +510,12 @@ func replay() {
 		sweepOne(l, a)
 		return
 	}
+	if c.Sub == "checkwords" {
+		l := chk.NewLocal()
+		defer l.Merge()
+		checkWordsOne(l, c.shape(), c.Family)
+		return
+	}
 	if c.Sub == "asym" {
 		var a asymCase
 		mc.LoadReplay(chk.ReplayFile(), &a)
